@@ -459,6 +459,8 @@ def rule_f7(ctx):
                 via.add(b)
             if mir.last_seg(cal) == "push" and "parse::ParseError" in t["args"][0]["place"]["ty"]:
                 via.add(b)
+        # `errs.into_iter().for_each(|(e, meta)| self.push_error(e, meta))`: the report loop written with an adaptor
+        via |= ctx.blocks_calling(body, ("push_error", "push_error_for_next"))
         # the Err edge of a parser call that failed (it has reported, by induction)
         for b in range(body.n):
             info = body.switch_info(b)
